@@ -52,7 +52,12 @@ fn check_all_valid(rep: &mut Report, store: &AnnotationStore, stage: &str, mode:
     });
     if let Ok((_, invalid, _)) = total {
         if invalid > 0 && ok {
-            rep.violation(format!("C18/{}/store-level-count-invalid/{}", stage, mode), json!({"context": ctx, "invalid": invalid}));
+            let which: Vec<Value> = store
+                .annotations()
+                .filter(|a| a.validate_text() == Some(false))
+                .map(|a| json!({"annotation": a.id(), "text": a.text_join(""), "target": format!("{:?}", a.as_ref().target()), "data": a.data().map(|d| json!([d.set().id(), d.key().id(), d.value().to_string()])).collect::<Vec<_>>()}))
+                .collect();
+            rep.violation(format!("C18/{}/store-level-count-invalid/{}", stage, mode), json!({"context": ctx, "invalid": invalid, "annotations_reported_invalid": which}));
             ok = false;
         }
     }
@@ -147,6 +152,10 @@ pub fn run(p: &Params, rep: &mut Report) {
             let mut g = crate::gen::Gen::new({
                 let mut c = GenCfg::default();
                 c.protect = false;
+                // protect_text went to the store directly: the model does not know the validation set, so handles of
+                // sets, keys and data are not in step with the store; refer by public id only
+                c.by_handle = false;
+                c.by_temp_id = false;
                 c
             });
             // ids must not clash with the ones used so far
@@ -157,6 +166,9 @@ pub fn run(p: &Params, rep: &mut Report) {
             for _ in 0..6 {
                 if let Some(crate::model::Op::Annotate(mut req)) = g.gen_annotate(&mut rng, &h.model) {
                     req.id = Some(format!("again{}", added));
+                    if std::env::var("VERIF_DEBUG").is_ok() {
+                        eprintln!("DEBUG again: {}", crate::model::Op::Annotate(req.clone()).to_json());
+                    }
                     if guard(|| h.store.annotate(crate::drive::annotationbuilder(&req))).map(|r| r.is_ok()).unwrap_or(false) {
                         added += 1;
                     }
